@@ -1,12 +1,12 @@
 SPECIFICATION Spec
 CONSTANTS
-  Keys = {1, 2, 3}
+  Keys = {1, 2}
   T = 3
   B = 2
   MaxTime = 0
-  MaxArrivals = 8
-  Fates = {"served"}
-  Depth = 8
+  MaxArrivals = 6
+  Fates = {"served", "dropped"}
+  Depth = 6
 INVARIANT Emit
 CONSTRAINT AtZero
 CHECK_DEADLOCK FALSE
